@@ -693,3 +693,122 @@ def rule_constraint_denotation(ctx):
     src = norm(f.node)
     ok = 'if not self._values: return' in src.replace('\n', ' ') and 'self._testValue(value, idx)' in src
     ctx.ob('C14.denote', f, 'empty constraint accepts; otherwise _testValue decides', ok, '')
+
+
+# ------------------------------------------------------------------- A2.pos
+
+def rule_position_loops(ctx):
+    """A2.pos: definite-length component loops measure consumption from a position taken once, before the loop."""
+    n = 0
+    for f in ctx.prog.all_functions():
+        if f.module.name != 'pyasn1.codec.ber.decoder' or not f.is_generator:
+            continue
+        cfg = None
+        for lp in [x for x in walk_own(f.node) if isinstance(x, ast.While) and 'substrate.tell()' in norm(x.test)]:
+            n += 1
+            t = lp.test
+            base = None
+            bound = None
+            txt = norm(t)
+            import re
+            m1 = re.fullmatch(r'substrate\.tell\(\) - (\w+) < (\w+)', txt)
+            m2 = re.fullmatch(r'(?:length == -1 or )?substrate\.tell\(\) < (\w+) \+ (\w+)', txt)
+            if m1:
+                base, bound = m1.group(1), m1.group(2)
+            elif m2:
+                base, bound = m2.group(1), m2.group(2)
+            if base is None:
+                raise AnalysisError('position loop test `%s` in %s not recognised' % (txt, f.short))
+            if cfg is None:
+                cfg = ctx.cfg(f)
+                rd = reaching_defs(cfg, f.params())
+            head = cfg.node_of[lp]
+            defs = rd[head].get(base, set())
+            ok = bool(defs) and all(d.kind == 'stmt' and isinstance(d.ast, ast.Assign) and norm(d.ast.value) == 'substrate.tell()' and
+                                    d.loop is not head for d in defs)
+            inside = [x for x in ast.walk(lp) if isinstance(x, (ast.Assign, ast.AugAssign)) and any(
+                isinstance(y, ast.Name) and y.id in (base, bound) for y in ast.walk(x.targets[0] if isinstance(x, ast.Assign) else x.target))]
+            ok = ok and not inside and bound == 'length'
+            ctx.ob('A2.pos', f, 'while %s' % txt, ok,
+                   'the loop bound must be the announced `length` measured from `%s = substrate.tell()` taken before the loop and '
+                   'left alone inside it; found definitions %s, re-assignments inside the loop: %d' % (
+                       base, [d.text()[:40] for d in defs], len(inside)), node=lp)
+    if n < 4:
+        raise AnalysisError('A2.pos found only %d position loops' % n)
+
+
+# ------------------------------------------------------------------- W.oid / W.bits encoder side
+
+def rule_encode_contents(ctx):
+    """W.oidenc / W.bitenc: first-arcs packing of the OID encoder and bit alignment of the BIT STRING encoder
+    as tables over small domains, against X.690 8.19.4 and 8.6.2."""
+    f = ctx.func('codec.ber.encoder.ObjectIdentifierEncoder.encodeValue')
+    chains = [n for n in walk_own(f.node) if isinstance(n, ast.If) and 'second' in names_used(n.test) and
+              not (isinstance(n.parent, ast.If) and n in n.parent.orelse)]
+    if len(chains) != 1:
+        raise AnalysisError('first-arcs chain not found in %s' % f.short)
+
+    def outcome(stmts, env):
+        for s in stmts:
+            if isinstance(s, ast.Raise):
+                return 'raise'
+            if isinstance(s, ast.Assign) and norm(s.targets[0]) == 'oid' and isinstance(s.value, ast.BinOp) and \
+                    isinstance(s.value.left, ast.Tuple) and len(s.value.left.elts) == 1 and norm(s.value.right) == 'oid[2:]':
+                return intexpr.ev(s.value.left.elts[0], env)
+            if isinstance(s, ast.If):
+                arms, orelse = if_chain(s)
+                for test, body in arms:
+                    if intexpr.ev(test, env):
+                        return outcome(body, env)
+                return outcome(orelse, env)
+        return 'fallthrough'
+    bad = None
+    try:
+        for first in range(0, 4):
+            for second in range(0, 130):
+                got = outcome([chains[0]], {'first': first, 'second': second})
+                want = (40 * first + second) if (first in (0, 1) and second <= 39) or first == 2 else 'raise'
+                if got != want:
+                    bad = (first, second, got, want)
+                    break
+            if bad:
+                break
+    except intexpr.NotPure as x:
+        raise AnalysisError('first-arcs chain of the OID encoder is not a pure table: %s' % x)
+    ctx.ob('W.oidenc', f, 'first sub-identifier = 40 * arc1 + arc2 (arc2 <= 39 unless arc1 == 2), anything else refused', bad is None,
+           'arcs (%d, %d) -> %r, X.690 8.19.4 says %r' % bad if bad else 'checked for arc1 0..3, arc2 0..129', node=chains[0])
+    sub = [n for n in walk_own(f.node) if isinstance(n, ast.If) and 'subOid' in names_used(n.test) and not (isinstance(n.parent, ast.If) and n in n.parent.orelse)]
+    if len(sub) == 1:
+        arms, orelse = if_chain(sub[0])
+        parts = []
+        remaining = set(range(-5, 400))
+        for test, body in arms:
+            acc = intexpr.accept_set(test, 'subOid', remaining)
+            parts.append(acc)
+            remaining -= acc
+        ok = parts[0] == set(range(0, 128)) and parts[1] == set(range(128, 400)) and remaining == set(range(-5, 0)) and raises_in(orelse)
+        ctx.ob('W.oidenc', f, 'sub-identifiers 0..127 in one octet, larger ones in base 128, negative arcs refused', ok,
+               [intexpr.fmt_set(p) for p in parts], node=sub[0])
+    # BIT STRING alignment
+    g = ctx.func('codec.ber.encoder.BitStringEncoder.encodeValue')
+    al = [n for n in walk_own(g.node) if isinstance(n, ast.If) and norm(n.test) == 'valueLength % 8']
+    if len(al) != 1:
+        raise AnalysisError('alignment test not found in %s' % g.short)
+    shift = None
+    for s in al[0].body:
+        if isinstance(s, ast.Assign) and isinstance(s.value, ast.BinOp) and isinstance(s.value.op, ast.LShift):
+            shift = s.value.right
+    bad = None
+    if shift is None:
+        bad = ('?', '?', '?')
+    else:
+        for L in range(0, 70):
+            got = intexpr.ev(shift, {'valueLength': L}) if L % 8 else 0
+            if got != (-L) % 8:
+                bad = (L, got, (-L) % 8)
+                break
+    ctx.ob('W.bitenc', g, 'value padded on the right to a multiple of 8 bits', bad is None,
+           'a %s-bit value is shifted by %s, needs %s' % bad if bad else 'shift = (8 - len %% 8) for unaligned lengths', node=al[0])
+    rets = [r for r in walk_own(g.node) if isinstance(r, ast.Return) and isinstance(r.value, ast.Tuple) and 'int2oct' in norm(r.value)]
+    ok = len(rets) == 1 and norm(rets[0].value.elts[0]) == 'int2oct(len(substrate) * 8 - valueLength) + substrate'
+    ctx.ob('W.bitenc', g, 'initial octet = number of unused bits = 8 * octets - bit length', ok, norm(rets[0].value.elts[0]) if rets else '')
